@@ -788,3 +788,246 @@ Proof.
   intros s H1 H2 H3. destruct (check_tree_spec s H1 H2 H3) as [p [t [Hc _]]].
   exists p, t. split; auto. rewrite luk_iff. tauto.
 Qed.
+
+(* ------------------------------------------------------------------ arrays on success *)
+
+Lemma size_pos : forall u, 1 <= size u.
+Proof. destruct u; simpl; lia. Qed.
+
+Lemma arr_length : forall u off p, length (arr u off p) = size u.
+Proof.
+  induction u; intros; simpl; auto. rewrite app_length, IHu1, IHu2. reflexivity.
+Qed.
+
+Fixpoint run (k i : nat) (t : list node) : option (list node) :=
+  match k with
+  | O => Some t
+  | S k' => match step i t with Ok (true, t') => run k' (S i) t' | _ => None end
+  end.
+
+Lemma run_app : forall a b i t,
+  run (a + b) i t = match run a i t with Some t' => run b (i + a) t' | None => None end.
+Proof.
+  induction a as [|a IH]; intros b i t; simpl.
+  - now rewrite Nat.add_0_r.
+  - destruct (step i t) as [[[|] t']| |]; auto. rewrite IH. now rewrite Nat.add_succ_r.
+Qed.
+
+Lemma loop_run : forall k i t t', run (S k) i t = Some t' -> loop (S k) i t = Ok (true, i + k, t').
+Proof.
+  induction k as [|k IH]; intros i t t' H.
+  - simpl in *. destruct (step i t) as [[[|] t1]| |]; try discriminate. inversion H; subst.
+    now rewrite Nat.add_0_r.
+  - change (run (S (S k)) i t) with (match step i t with Ok (true, t1) => run (S k) (S i) t1 | _ => None end) in H.
+    change (loop (S (S k)) i t) with
+      (match step i t with
+       | Ok (true, t1) => loop (S k) (S i) t1
+       | Ok (false, t1) => Ok (false, i, t1) | Crash => Crash | Fuel => Fuel end).
+    destruct (step i t) as [[[|] t1]| |]; try discriminate.
+    rewrite (IH _ _ _ H). now rewrite Nat.add_succ_r.
+Qed.
+
+Definition Fresh (t : list node) (u : tree) (i : nat) (p : option nat) : Prop :=
+  forall k a, nth_error (pre u) k = Some a ->
+    exists nd, nth_error t (i + k) = Some nd /\ ty nd = a /\ lft nd = None /\ rgt nd = None /\
+               par nd = (if k =? 0 then p else None).
+
+Definition Filled (t : list node) (u : tree) (i : nat) (p : option nat) : Prop :=
+  forall k nd, nth_error (arr u i p) k = Some nd -> nth_error t (i + k) = Some nd.
+
+Lemma step_left : forall t i nd, nth_error t i = Some nd -> (ty nd = 1 \/ ty nd = 2) ->
+  step i t = Ok (true, upd (S i) (set_par i) (upd i (set_lft (S i)) t)).
+Proof.
+  intros t i nd H Ht. unfold step. rewrite H.
+  destruct Ht as [E|E]; rewrite E; reflexivity.
+Qed.
+
+Lemma step_leaf : forall t i nd h st, nth_error t i = Some nd -> ty nd = 0 ->
+  Anc t i (par nd) (h :: st) ->
+  step i t = Ok (true, upd (S i) (set_par h) (upd h (set_rgt (S i)) t)).
+Proof.
+  intros t i nd h st H Ht Hanc. unfold step. rewrite H, Ht. simpl.
+  destruct (par nd) as [p|] eqn:Ep; [|inversion Hanc].
+  assert (p < i) by (inversion Hanc; assumption).
+  assert (i < length t) by (apply nth_error_Some; congruence).
+  rewrite (climb_spec t i (Some p) (h :: st) Hanc i p (length t) eq_refl) by lia.
+  reflexivity.
+Qed.
+
+Lemma node_eta : forall nd a p l r, ty nd = a -> par nd = p -> lft nd = l -> rgt nd = r -> nd = mkNode a p l r.
+Proof. intros [? ? ? ?] ? ? ? ?; simpl; intros; subst; reflexivity. Qed.
+
+Lemma subtree_run : forall u i t p st,
+  i + size u <= length t -> Fresh t u i p -> Anc t i p st ->
+  exists t', run (size u - 1) i t = Some t' /\ length t' = length t /\
+    (forall k, k < i \/ i + size u <= k -> nth_error t' k = nth_error t k) /\
+    Filled t' u i p /\
+    (exists ndl, nth_error t' (i + size u - 1) = Some ndl /\ ty ndl = 0 /\
+                 Anc t' (i + size u - 1) (par ndl) st).
+Proof.
+  induction u as [|c IH|l IHl r IHr]; intros i t p st Hlen Hfr Hanc.
+  - (* leaf *)
+    destruct (Hfr 0 0 eq_refl) as [nd [Hnd [Hty [Hl [Hr Hp]]]]]. simpl in Hp. rewrite Nat.add_0_r in Hnd.
+    exists t. simpl. repeat split; auto.
+    + intros k nd' Hk. destruct k as [|[|k]]; simpl in Hk; try discriminate.
+      inversion Hk; subst nd'. rewrite Nat.add_0_r, Hnd. f_equal. now apply node_eta.
+    + exists nd. replace (i + 1 - 1) with i by lia. rewrite Hp. auto.
+  - (* unary *)
+    destruct (Hfr 0 1 eq_refl) as [nd [Hnd [Hty [Hl [Hr Hp]]]]]. simpl in Hp. rewrite Nat.add_0_r in Hnd.
+    simpl in Hlen. assert (Hsc := size_pos c).
+    set (t1 := upd (S i) (set_par i) (upd i (set_lft (S i)) t)).
+    assert (Hstep : step i t = Ok (true, t1)) by (eapply step_left; eauto).
+    assert (Hlen1 : length t1 = length t) by (unfold t1; now rewrite !upd_length).
+    assert (Hoth : forall k, k <> i -> k <> S i -> nth_error t1 k = nth_error t k).
+    { intros k H1 H2. unfold t1. now rewrite !nth_error_upd_neq by lia. }
+    assert (Hi1 : nth_error t1 i = Some (set_lft (S i) nd)).
+    { unfold t1. rewrite nth_error_upd_neq by lia. now apply nth_error_upd_eq. }
+    assert (Hfr1 : Fresh t1 c (S i) (Some i)).
+    { intros k a Hk. destruct (Hfr (S k) a Hk) as [nd' [Hnd' [Hty' [Hl' [Hr' Hp']]]]]. simpl in Hp'.
+      replace (i + S k) with (S i + k) in Hnd' by lia.
+      destruct k as [|k].
+      - exists (set_par i nd'). rewrite Nat.add_0_r in *. split.
+        + unfold t1. apply nth_error_upd_eq. rewrite nth_error_upd_neq by lia. exact Hnd'.
+        + simpl. auto.
+      - exists nd'. split; [rewrite Hoth by lia; exact Hnd'|]. simpl. auto. }
+    assert (Hanc1 : Anc t1 (S i) (Some i) st).
+    { eapply Anc_skip; [lia|exact Hi1| |].
+      - unfold freebin. simpl. now rewrite Hty.
+      - simpl. rewrite Hp. eapply Anc_frame; [exact Hanc|]. intros k Hk. apply Hoth; lia. }
+    destruct (IH (S i) t1 (Some i) st ltac:(lia) Hfr1 Hanc1) as [t' [Hrun [Hlen' [Hout [Hfill Hlast]]]]].
+    exists t'. split; [|split; [|split; [|split]]].
+    + simpl. rewrite Nat.sub_0_r.
+      replace (size c) with (S (size c - 1)) by lia. simpl. rewrite Hstep. exact Hrun.
+    + lia.
+    + intros k Hk. simpl in Hk. rewrite Hout by lia. apply Hoth; lia.
+    + intros k nd' Hk. destruct k as [|k]; simpl in Hk.
+      * inversion Hk; subst nd'. rewrite Nat.add_0_r. rewrite Hout by lia. rewrite Hi1. f_equal.
+        apply node_eta; simpl; auto.
+      * replace (i + S k) with (S i + k) by lia. now apply Hfill.
+    + destruct Hlast as [ndl [H1 [H2 H3]]]. exists ndl.
+      replace (i + size (U c) - 1) with (S i + size c - 1) by (simpl; lia). auto.
+  - (* binary *)
+    destruct (Hfr 0 2 eq_refl) as [nd [Hnd [Hty [Hl [Hr Hp]]]]]. simpl in Hp. rewrite Nat.add_0_r in Hnd.
+    simpl in Hlen.
+    assert (Hsl := size_pos l). assert (Hsr := size_pos r).
+    assert (Hprel : length (pre l) = size l) by apply size_pre.
+    set (t1 := upd (S i) (set_par i) (upd i (set_lft (S i)) t)).
+    assert (Hstep : step i t = Ok (true, t1)) by (eapply step_left; eauto).
+    assert (Hlen1 : length t1 = length t) by (unfold t1; now rewrite !upd_length).
+    assert (Hoth : forall k, k <> i -> k <> S i -> nth_error t1 k = nth_error t k).
+    { intros k H1 H2. unfold t1. now rewrite !nth_error_upd_neq by lia. }
+    assert (Hi1 : nth_error t1 i = Some (set_lft (S i) nd)).
+    { unfold t1. rewrite nth_error_upd_neq by lia. now apply nth_error_upd_eq. }
+    assert (Hfr1 : Fresh t1 l (S i) (Some i)).
+    { intros k a Hk.
+      assert (Hk' : nth_error (pre (B l r)) (S k) = Some a).
+      { simpl. rewrite nth_error_app1; auto. apply nth_error_Some. congruence. }
+      destruct (Hfr (S k) a Hk') as [nd' [Hnd' [Hty' [Hl' [Hr' Hp']]]]]. simpl in Hp'.
+      replace (i + S k) with (S i + k) in Hnd' by lia.
+      destruct k as [|k].
+      - exists (set_par i nd'). rewrite Nat.add_0_r in *. split.
+        + unfold t1. apply nth_error_upd_eq. rewrite nth_error_upd_neq by lia. exact Hnd'.
+        + simpl. auto.
+      - exists nd'. split; [rewrite Hoth by lia; exact Hnd'|]. simpl. auto. }
+    assert (Hanc1 : Anc t1 (S i) (Some i) (i :: st)).
+    { eapply Anc_free; [lia|exact Hi1| |].
+      - unfold freebin. simpl. now rewrite Hty, Hr.
+      - simpl. rewrite Hp. eapply Anc_frame; [exact Hanc|]. intros k Hk. apply Hoth; lia. }
+    destruct (IHl (S i) t1 (Some i) (i :: st) ltac:(lia) Hfr1 Hanc1)
+      as [t2 [Hrun2 [Hlen2 [Hout2 [Hfill2 [ndl [Hndl [Htyl Hancl]]]]]]]].
+    replace (S i + size l - 1) with (i + size l) in Hndl, Hancl by lia.
+    (* the step at the last leaf of l attaches the root of r to the right of i *)
+    set (j := i + size l).
+    set (t3 := upd (S j) (set_par i) (upd i (set_rgt (S j)) t2)).
+    assert (Hstep3 : step j t2 = Ok (true, t3)) by (eapply step_leaf; eauto).
+    assert (Hlen3 : length t3 = length t) by (unfold t3; rewrite !upd_length; lia).
+    assert (Hoth3 : forall k, k <> i -> k <> S j -> nth_error t3 k = nth_error t2 k).
+    { intros k H1 H2. unfold t3. now rewrite !nth_error_upd_neq by lia. }
+    assert (Hi2 : nth_error t2 i = Some (set_lft (S i) nd)) by (rewrite Hout2 by lia; exact Hi1).
+    assert (Hi3 : nth_error t3 i = Some (set_rgt (S j) (set_lft (S i) nd))).
+    { unfold t3. rewrite nth_error_upd_neq by (unfold j; lia). now apply nth_error_upd_eq. }
+    assert (Hfr3 : Fresh t3 r (S j) (Some i)).
+    { intros k a Hk.
+      assert (Hk' : nth_error (pre (B l r)) (S (size l + k)) = Some a).
+      { simpl. rewrite nth_error_app2 by lia. rewrite Hprel.
+        replace (size l + k - size l) with k by lia. exact Hk. }
+      destruct (Hfr _ a Hk') as [nd' [Hnd' [Hty' [Hl' [Hr' Hp']]]]]. simpl in Hp'.
+      replace (i + S (size l + k)) with (S j + k) in Hnd' by (unfold j; lia).
+      assert (Hnd2 : nth_error t2 (S j + k) = Some nd').
+      { rewrite Hout2 by (unfold j; lia). rewrite Hoth by (unfold j; lia). exact Hnd'. }
+      destruct k as [|k].
+      - exists (set_par i nd'). rewrite Nat.add_0_r in *. split.
+        + unfold t3. apply nth_error_upd_eq. rewrite nth_error_upd_neq by (unfold j; lia). exact Hnd2.
+        + simpl. auto.
+      - exists nd'. split; [rewrite Hoth3 by (unfold j; lia); exact Hnd2|]. simpl. auto. }
+    assert (Hanc3 : Anc t3 (S j) (Some i) st).
+    { eapply Anc_skip; [unfold j; lia|exact Hi3| |].
+      - unfold freebin. simpl. apply andb_false_r.
+      - simpl. rewrite Hp. eapply Anc_frame; [exact Hanc|]. intros k Hk.
+        rewrite Hoth3 by (unfold j; lia). rewrite Hout2 by lia. apply Hoth; lia. }
+    destruct (IHr (S j) t3 (Some i) st ltac:(unfold j; lia) Hfr3 Hanc3)
+      as [t4 [Hrun4 [Hlen4 [Hout4 [Hfill4 Hlast4]]]]].
+    exists t4. split; [|split; [|split; [|split]]].
+    + replace (size (B l r) - 1) with (S ((size l - 1) + S (size r - 1))) by (simpl; lia).
+      change (run (S (size l - 1 + S (size r - 1))) i t)
+        with (match step i t with Ok (true, t') => run (size l - 1 + S (size r - 1)) (S i) t' | _ => None end).
+      rewrite Hstep. rewrite run_app. rewrite Hrun2.
+      replace (S i + (size l - 1)) with j by (unfold j; lia).
+      simpl. rewrite Hstep3. exact Hrun4.
+    + lia.
+    + intros k Hk. simpl in Hk. rewrite Hout4 by (unfold j; lia). rewrite Hoth3 by (unfold j; lia).
+      rewrite Hout2 by lia. apply Hoth; lia.
+    + intros k nd' Hk. destruct k as [|k]; simpl in Hk.
+      * inversion Hk; subst nd'. rewrite Nat.add_0_r. rewrite Hout4 by (unfold j; lia). rewrite Hi3. f_equal.
+        apply node_eta; simpl; auto.
+      * destruct (Nat.lt_ge_cases k (size l)) as [Hkl|Hkl].
+        -- rewrite nth_error_app1 in Hk by (rewrite arr_length; exact Hkl).
+           replace (i + S k) with (S i + k) by lia.
+           rewrite Hout4 by (unfold j; lia). rewrite Hoth3 by (unfold j; lia). now apply Hfill2.
+        -- rewrite nth_error_app2 in Hk by (rewrite arr_length; exact Hkl). rewrite arr_length in Hk.
+           replace (i + S k) with (S j + (k - size l)) by (unfold j; lia).
+           apply Hfill4. exact Hk.
+    + destruct Hlast4 as [ndl4 [H1 [H2 H3]]]. exists ndl4.
+      replace (i + size (B l r) - 1) with (S j + size r - 1) by (simpl; unfold j; lia). auto.
+Qed.
+
+Lemma nth_error_ext_len : forall A (l1 l2 : list A), length l1 = length l2 ->
+  (forall k x, nth_error l2 k = Some x -> nth_error l1 k = Some x) -> l1 = l2.
+Proof.
+  induction l1 as [|a l1 IH]; intros [|b l2] Hl H; simpl in Hl; try discriminate; auto.
+  f_equal.
+  - specialize (H 0 b eq_refl). now inversion H.
+  - apply IH; [lia|]. intros k x. apply (H (S k)).
+Qed.
+
+(* On a tree code of length >= 2, check_tree succeeds and the arrays it returns are exactly the
+   parent/left/right indexing of the tree (nodes numbered in prefix order). *)
+Theorem check_tree_arrays : forall u, 2 <= size u ->
+  check_tree (pre u) = Ok (true, Some (pre u), arr u 0 None).
+Proof.
+  intros u Hs.
+  assert (Hlen : length (pre u) = size u) by apply size_pre.
+  set (t0 := map mknode (pre u)).
+  assert (Hfr : Fresh t0 u 0 None).
+  { intros k a Hk. exists (mknode a). split.
+    - unfold t0. simpl. now apply map_nth_error.
+    - simpl. destruct (k =? 0); auto. }
+  destruct (subtree_run u 0 t0 None [] ltac:(unfold t0; rewrite map_length; simpl; lia) Hfr (Anc_none t0 0))
+    as [t' [Hrun [Hlen' [_ [Hfill _]]]]].
+  assert (Ht' : t' = arr u 0 None).
+  { apply nth_error_ext_len.
+    - rewrite Hlen', arr_length. unfold t0. now rewrite map_length.
+    - intros k x Hk. apply (Hfill k x Hk). }
+  assert (Hhd : hd 0 (pre u) <> 0).
+  { destruct u; simpl in *; try lia; discriminate. }
+  destruct (check_tree_spec (pre u) ltac:(lia) Hhd (pre_le2 u)) as [p [t [Hct _]]].
+  rewrite lukb_pre in Hct. rewrite Hct.
+  unfold check_tree in Hct.
+  assert (E : (1 <? length (pre u)) = true) by (apply Nat.ltb_lt; lia). rewrite E in Hct.
+  fold t0 in Hct.
+  replace (length (pre u) - 1) with (S (size u - 2)) in Hct by lia.
+  rewrite (loop_run (size u - 2) 0 t0 t') in Hct
+    by (replace (S (size u - 2)) with (size u - 1) by lia; exact Hrun).
+  injection Hct as H1 H2 H3. subst p t.
+  rewrite firstn_all2 by lia. rewrite Ht'. reflexivity.
+Qed.
